@@ -71,15 +71,37 @@ Definition resend (old : option (Z -> row)) (new : Z -> row) (y : Z) : bool :=
 Definition urwid_draw (old : option (Z -> row)) (new : Z -> row) : list stok :=
   flat_map (fun y => if resend old new y then KCup y 0 :: flat_map item_toks (snd (new y)) else []) ys.
 
-(** the world: the library's screen state, urwid's screen buffer, the terminal *)
-Record world := mk_world { w_scr : scr; w_sb : option (Z -> row); w_term : pterm }.
-Definition world_init : world := mk_world scr_init None pterm_init.
+(** the world: the library's screen state, urwid's screen buffer, the terminal, and what has
+    been written to the screen's output buffer but not flushed yet ([w_queue]: clear() and
+    clear_images(now=False) only queue their delete commands; draw_screen flushes).
+    GHOST fields (not in the code, used to state the hypothesis of [no_ghosts]): the
+    disguise states with which the screen buffer was written ([w_bs]) and how many times
+    the canvas disguise ([w_nall]) / each widget's disguise ([w_nw]) changed since. *)
+Record world := mk_world { w_scr : scr; w_sb : option (Z -> row); w_term : pterm; w_queue : list stok;
+                           w_bs : scr; w_nall : nat; w_nw : list (nat * nat) }.
+Definition world_init : world := mk_world scr_init None pterm_init [] scr_init 0 [].
 
-(** a redraw with a canvas whose tracked image views are [V] (the walk's result, see
-    [walk_positions]) and whose other content is [base]; or clear().
-    Drawing the same canvas object again is the redraw of the same view set: no view
-    disappears, no row differs. *)
-Inductive sop := ORedraw (V : list view) (base : Z -> Z) | OClear.
+Definition cnt_inc (w : nat) (l : list (nat * nat)) : list (nat * nat) :=
+  (w, S (wdis_get w l)) :: filter (fun e => negb (Nat.eqb (fst e) w)) l.
+
+(** what the application / the main loop does to the screen:
+    - a redraw with a canvas whose tracked image views are [V] (the walk's result, see
+      [walk_positions]) and whose other content is [base] (drawing the same canvas object
+      again is the redraw of the same view set: no view disappears, no row differs);
+    - clear();
+    - the public clear_images(widgets..., now=...) ([ws] empty = all images). *)
+Inductive sop := ORedraw (V : list view) (base : Z -> Z) | OClear | OApi (ws : list (nat * wkind)) (now : bool).
+
+(** the views of the previous canvas that the new one no longer has (:673) *)
+Definition vanished (V : list view) (s : scr) : list view := filter (fun v => negb (view_mem v V)) (s_prev s).
+Definition clears_all (V : list view) (s : scr) : bool :=
+  existsb (fun v => negb (is_kitty (v_kind v))) (vanished V s).
+(** ghost: the disguise changes since the screen buffer was written, this redraw's included *)
+Definition redraw_nall (V : list view) (w : world) : nat :=
+  if clears_all V (w_scr w) then S (w_nall w) else w_nall w.
+Definition redraw_nw (V : list view) (w : world) (wd : nat) : nat :=
+  wdis_get wd (w_nw w)
+  + (if negb (clears_all V (w_scr w)) && existsb (fun v => Nat.eqb (v_wid v) wd) (vanished V (w_scr w)) then 1 else 0).
 
 Definition step (w : world) (o : sop) : world :=
   match o with
@@ -87,11 +109,25 @@ Definition step (w : world) (o : sop) : world :=
     let ds := update_views ksup V (w_scr w) in
     let new := render_row (snd ds) V base in
     mk_world (snd ds) (Some new)
-             (pexec konsole (w_term w) ([KSyncB] ++ fst ds ++ urwid_draw (w_sb w) new ++ [KSyncE]))
+             (pexec konsole (w_term w) (w_queue w ++ [KSyncB] ++ fst ds ++ urwid_draw (w_sb w) new ++ [KSyncE]))
+             [] (snd ds) 0 []
   | OClear =>
     let cs := clear_stream ksup (w_scr w) in
-    mk_world (snd cs) None (pexec konsole (w_term w) (fst cs))
+    mk_world (snd cs) None (w_term w) (w_queue w ++ fst cs) (w_bs w)
+             (if ksup then S (w_nall w) else w_nall w) (w_nw w)
+  | OApi ws now =>
+    let r := api_clear_images ksup ws now (w_scr w) in
+    mk_world (snd r) (w_sb w) (pexec konsole (w_term w) (fst (fst r))) (w_queue w ++ snd (fst r)) (w_bs w)
+             (match ws with [] => if ksup then S (w_nall w) else w_nall w | _ => w_nall w end)
+             (match ws with
+              | [] => w_nw w
+              | _ => if ksup then fold_left (fun l x => cnt_inc (fst x) l) (filter (fun x => is_kitty (snd x)) ws) (w_nw w)
+                     else w_nw w
+              end)
   end.
 Definition run (ops : list sop) (w : world) : world := fold_left step ops w.
+
+(** the terminal once the queue is flushed *)
+Definition flushed (w : world) : pterm := pexec konsole (w_term w) (w_queue w).
 
 End Urwid.
